@@ -845,6 +845,63 @@ def _body(case, ctx):
                      case["dtype"], f"threads_{case['threads']}"] + (["scalar_argument_exactly_zero"] if any(v == 0.0 for v in case["scalars"][:3]) else []))
 
 
+# ------------------------------------------------------------------------------------------------
+# generation order in a fresh process (process-wide state of the generators: module-level caches, memoised stencils, ...)
+# ------------------------------------------------------------------------------------------------
+
+_GROUP_TOKENS = ["diffusion", "advection", "stretching", "curl", "divergence", "fixed_val", "elementwise", "penalise_field_boundary",
+                 "brinkmann", "filter", "update_vorticity"]
+
+
+def _groups():
+    keys = entry_keys()
+    groups = {}
+    for ki, k in enumerate(keys):
+        tok = next((t for t in _GROUP_TOKENS if t in k[0]), None)
+        if tok is None:
+            continue
+        groups.setdefault(f"{tok}_{ENTRIES[k]['dim']}d", []).append(ki)
+    # time-step kernels build on the flux kernels of the same operator, boundary setters are used by every reset_ghost_zone
+    # wrapper: the groups are "generators that may share process-wide state"
+    return {g: v for g, v in sorted(groups.items()) if len(v) >= 2}
+
+
+def _order_variants(tier):
+    return list(_groups())
+
+
+def _order_strategy(tier, group):
+    members = _groups()[group]
+
+    @st.composite
+    def case(draw):
+        k = draw(st.integers(2, min(5, len(members))))
+        order = draw(st.permutations(members))[:k]
+        dtype = draw(gen.precisions)
+        threads = 2 if "penalise" in group else draw(st.sampled_from([False, 1, 2]))
+        subs = []
+        for ki in order:
+            c = draw(_strategy("quick", ki))
+            c["dtype"], c["threads"] = dtype, threads
+            subs.append(c)
+        return {"group": group, "order": list(order), "sub_cases": subs}
+
+    return case()
+
+
+def _order_body(case, ctx):
+    from ..freshproc import run_in_fresh_process
+
+    res = run_in_fresh_process("sophtverif.props.c13", "kernel_formula_and_region", case["sub_cases"])
+    if res.get("error"):
+        raise RuntimeError("fresh-process driver failed: " + res["error"])
+    names = [c["entry_name"] for c in case["sub_cases"]]
+    if res["violation"] is not None:
+        v = res["violation"]
+        raise Violation(f"kernels generated in a fresh process in the order {names}: entry #{v['index']} ({names[v['index']]}) fails: {v['message']}")
+    ctx.note(nontrivial=len(set(names)) >= 2, labels=[case["group"], f"order_length_{len(names)}"])
+
+
 def _inventory_cases(tier):
     return [{"inventory": True}]
 
@@ -864,6 +921,8 @@ PARTS = [
     Part(name="kernel_formula_and_region", strategy=_strategy, body=_body,
          examples={"quick": 1500, "thorough": 40000}, shards={"quick": 14, "thorough": 16}, variants=_variants,
          min_examples_per_variant=12),
+    Part(name="generation_order_fresh_process", strategy=_order_strategy, body=_order_body, variants=_order_variants,
+         examples={"quick": 60, "thorough": 1200}, shards={"quick": 14, "thorough": 16}, min_examples_per_variant=3, weight=1.0),
     Part(name="registry_complete", strategy=None, body=_inventory, examples={"quick": 1, "thorough": 1},
          exhaustive=_inventory_cases),
 ]
